@@ -97,3 +97,55 @@ Proof. split; reflexivity. Qed.
 
 Example kill_rule_on_witness : requests true [w_bad; w_good] [] = [None; Some [11]].
 Proof. reflexivity. Qed.
+
+(* ---------------------------------------------------------------- restarts (Converter.Reset / ResetConverter)
+   Reset increments the converter's epoch, stops the idle processes and empties the output cache.  A conversion
+   remembers the epoch at which it reserved its process; when it has read the whole answer, releaseProcess compares the
+   epochs: a process of an older epoch is stopped and Converter.Data returns an error, so the answer is NOT stored.
+   Rule: an answer of an older epoch is never stored.  The store keeps (stream, epoch of the answer, output). *)
+Record cstate := mkC { epoch : N; idle : pool; store : list (N * N * list N) }.
+
+Definition reset (s : cstate) : cstate := mkC (epoch s + 1) [] [].
+
+Fixpoint resets (k : nat) (s : cstate) : cstate := match k with O => s | S k' => resets k' (reset s) end.
+
+(* one conversion of stream id: reserve (pop) at the current epoch, k restarts happen while the converter answers, the
+   answer is read, the process is released; check = the result of releaseProcess is honoured *)
+Definition convert (check : bool) (id : N) (ans : list line) (k : nat) (s : cstate) : cstate :=
+  let e0 := epoch s in
+  let '(buf, rest) := match idle s with b :: r => (b, r) | [] => ([], []) end in
+  let s1 := resets k (mkC (epoch s) rest (store s)) in
+  match read (buf ++ ans) [] with
+  | (Some out, lo) =>
+      if e0 =? epoch s1 then mkC (epoch s1) (lo :: idle s1) ((id, e0, out) :: store s1)
+      else if check then s1                                       (* stopped, Data returns an error: nothing stored *)
+      else mkC (epoch s1) (idle s1) ((id, e0, out) :: store s1)   (* seeded C16-r6a-n2: stored all the same *)
+  | (None, _) => s1
+  end.
+
+Definition store_current (s : cstate) : Prop := Forall (fun e => snd (fst e) = epoch s) (store s).
+
+Lemma resets_store k : forall s, store_current s -> store_current (resets k s).
+Proof.
+  induction k as [|k IH]; intros s H; simpl; [exact H|]. apply IH. unfold store_current, reset. simpl. constructor.
+Qed.
+
+Lemma resets_epoch_ge k : forall s, epoch s <= epoch (resets k s).
+Proof. induction k as [|k IH]; intros s; simpl; [lia|]. specialize (IH (reset s)). simpl in IH. lia. Qed.
+
+(* every stored answer belongs to the current epoch: an answer of an older epoch is never stored *)
+Theorem convert_store_current id ans k s : store_current s -> store_current (convert true id ans k s).
+Proof.
+  intros H. unfold convert.
+  destruct (match idle s with b :: r => (b, r) | [] => ([], []) end) as [buf rest].
+  assert (store_current (resets k (mkC (epoch s) rest (store s)))) as H1 by (apply resets_store; exact H).
+  destruct (read (buf ++ ans) []) as [[out|] lo]; [|exact H1].
+  destruct (N.eqb_spec (epoch s) (epoch (resets k (mkC (epoch s) rest (store s))))) as [E|E]; [|exact H1].
+  unfold store_current. simpl. constructor; [simpl; exact E|exact H1].
+Qed.
+
+(* the seeded behaviour: one restart during the conversion and the old answer is in the store of the new epoch *)
+Theorem ignore_release_result_refuted :
+  store (convert false 0 (answer w_good) 1 (mkC 0 [] [])) = [(0, 0, [11])] /\
+  epoch (convert false 0 (answer w_good) 1 (mkC 0 [] [])) = 1.
+Proof. split; reflexivity. Qed.
